@@ -6,9 +6,12 @@ package cfg
 
 import (
 	"context"
+	"encoding/json"
 	"fmt"
+	"google.golang.org/grpc/serviceconfig"
 	"strconv"
 	"strings"
+	"sync"
 
 	"github.com/GoogleCloudPlatform/grpc-gcp-go/grpcgcp"
 	pb "github.com/GoogleCloudPlatform/grpc-gcp-go/grpcgcp/grpc_gcp"
@@ -333,8 +336,47 @@ func CheckGME(m *pb.ApiConfig) string {
 	if m.GetChannelPool().GetMinSize() > 3 {
 		m.ChannelPool.MinSize = 3 // a pool really opens minSize connections
 	}
+	// both constructors (the old spelling is kept for compatibility), each with its own copy of the configuration
+	if m != nil {
+		if f := checkGME(proto.Clone(m).(*pb.ApiConfig), grpcgcp.NewGcpMultiEndpoint); f != "" {
+			return "NewGcpMultiEndpoint (deprecated spelling): " + f
+		}
+	}
+	return checkGME(m, grpcgcp.NewGCPMultiEndpoint)
+}
+
+// The registered balancer builder is wrapped: what its ParseConfig is handed when a pool is dialed is recorded, so that
+// the configuration the pools really get can be compared with the supplied one.
+type recBuilder struct{ balancer.Builder }
+
+var recMu sync.Mutex
+var recorded []*pb.ApiConfig
+var recErrs []string
+
+func (r recBuilder) ParseConfig(j json.RawMessage) (serviceconfig.LoadBalancingConfig, error) {
+	c, err := r.Builder.(balancer.ConfigParser).ParseConfig(j)
+	recMu.Lock()
+	if g, ok := c.(*grpcgcp.GCPBalancerConfig); ok && g != nil && g.ApiConfig != nil && err == nil {
+		recorded = append(recorded, proto.Clone(g.ApiConfig).(*pb.ApiConfig))
+	} else if err != nil {
+		recErrs = append(recErrs, err.Error())
+	}
+	recMu.Unlock()
+	return c, err
+}
+
+func init() {
+	if inner := balancer.Get("grpc_gcp"); inner != nil {
+		balancer.Register(recBuilder{inner})
+	}
+}
+
+func checkGME(m *pb.ApiConfig, construct func(*grpcgcp.GCPMultiEndpointOptions, ...grpc.DialOption) (*grpcgcp.GCPMultiEndpoint, error)) string {
 	before := proto.Clone(m).(*pb.ApiConfig)
-	gme, err := grpcgcp.NewGCPMultiEndpoint(&grpcgcp.GCPMultiEndpointOptions{
+	recMu.Lock()
+	recorded, recErrs = nil, nil
+	recMu.Unlock()
+	gme, err := construct(&grpcgcp.GCPMultiEndpointOptions{
 		GRPCgcpConfig:  m,
 		MultiEndpoints: map[string]*multiendpoint.MultiEndpointOptions{"default": {Endpoints: []string{"endpoint-1"}}},
 		Default:        "default",
@@ -344,6 +386,14 @@ func CheckGME(m *pb.ApiConfig) string {
 		return "NewGCPMultiEndpoint: " + err.Error()
 	}
 	defer gme.Close()
+	recMu.Lock()
+	got0 := recorded
+	recMu.Unlock()
+	for _, r := range got0 {
+		if m != nil && !proto.Equal(r, before) {
+			return fmt.Sprintf("the pool was dialed with the configuration %v, supplied %v", r, before)
+		}
+	}
 	if !proto.Equal(before, m) {
 		return fmt.Sprintf("NewGCPMultiEndpoint changed the caller's configuration: %v -> %v", before, m)
 	}
